@@ -1526,4 +1526,583 @@ theorem photonAccess_start (f : File) (o : Obj) (c : Color) {o' : Obj} {w : Opti
         · left; exact ⟨h, h1.2.1, h1.2.2⟩
         · right; right; exact ⟨h.1, h.2, h1.2.1, h1.2.2⟩
 
+/-! # the buffer model (clause 3: aliasing) — `Verif.C19.Alias` -/
+
+namespace Alias
+
+/-! ## lemmas -/
+
+theorem cropL_map {α β} (f : α → β) (cols lo hi : Nat) (l : List α) :
+    (cropL cols lo hi l).map f = cropL cols lo hi (l.map f) := by
+  simp [cropL, List.map_take, List.map_drop]
+
+theorem flipL_map {α β} (f : α → β) (cols : Nat) : ∀ (fuel : Nat) (l : List α),
+    (flipL cols fuel l).map f = flipL cols fuel (l.map f)
+  | 0, l => rfl
+  | n + 1, l => by
+    simp only [flipL, List.length_map]
+    split
+    · rfl
+    · simp [flipL_map f cols n, List.map_drop, List.map_take]
+
+theorem content_length (mem : List (List Int)) (a : Arr) : (content mem a).length = a.idx.length := by
+  simp [content]
+
+theorem content_append (mem ext : List (List Int)) (c : Arr) (h : c.buf < mem.length) :
+    content (mem ++ ext) c = content mem c := by
+  simp [content, List.getD_eq_getElem?_getD, List.getElem?_append_left h]
+
+theorem content_set_ne (mem : List (List Int)) (b : Nat) (x : List Int) (c : Arr) (h : c.buf ≠ b) :
+    content (mem.set b x) c = content mem c := by
+  simp [content, List.getD_eq_getElem?_getD, List.getElem?_set_ne (Ne.symm h)]
+
+theorem map_range_getD (l : List Int) : (List.range l.length).map (fun p => l.getD p 0) = l := by
+  apply List.ext_getElem
+  · simp
+  · intro i h1 h2
+    simp [List.getD_eq_getElem?_getD, List.getElem?_eq_getElem h2]
+
+theorem content_fresh (mem : List (List Int)) (v : List Int) (w : Bool) :
+    content (mem ++ [v]) ⟨mem.length, List.range v.length, w⟩ = v := by
+  simp [content, List.getD_eq_getElem?_getD]
+  exact map_range_getD v
+
+theorem mem_storeA (st : St) (i : Nat) (k : Key) (a : Arr) (j : Nat) (k' : Key) (c : Arr)
+    (h : (k', c) ∈ (storeA st i k a).caches.getD j []) :
+    (j = i ∧ k' = k ∧ c = a) ∨ (k', c) ∈ st.caches.getD j [] := by
+  simp only [storeA, List.getD_eq_getElem?_getD] at h ⊢
+  by_cases hj : i = j
+  · subst hj
+    by_cases hl : i < st.caches.length
+    · simp [List.getElem?_set_self hl] at h
+      rcases h with h | h
+      · exact Or.inl ⟨rfl, h.1, h.2⟩
+      · exact Or.inr (by simpa using h)
+    · rw [List.getElem?_eq_none (by simp; omega)] at h
+      simp at h
+  · rw [List.getElem?_set_ne hj] at h
+    exact Or.inr h
+
+theorem mem_caches_append (caches : List (List (Key × Arr))) (j : Nat) (e : Key × Arr)
+    (h : e ∈ (caches ++ [[]]).getD j []) : e ∈ caches.getD j [] := by
+  simp only [List.getD_eq_getElem?_getD] at h ⊢
+  by_cases hj : j < caches.length
+  · rwa [List.getElem?_append_left hj] at h
+  · rw [List.getElem?_append_right (by omega)] at h
+    by_cases h0 : j - caches.length = 0
+    · simp [h0] at h
+    · rw [List.getElem?_eq_none (by simp; omega)] at h
+      simp at h
+
+/-! ### the invariant -/
+
+/-- for the quantity `k`: the closure chain of every object is its parent followed by the parent's chain, and the value-level
+    path of the object is its transformation followed by the parent's path -/
+def PathOKk (k : Key) (objs : List Sk) (paths : List (List Xf)) : Prop :=
+  objs.length = paths.length ∧
+  ∀ (i : Nat) (o : Sk), objs[i]? = some o →
+    (o.xf k = none ∧ paths[i]? = some []) ∨
+    (∃ (x : Xf) (par : Nat) (rest : List Nat) (op : Sk) (pp : List Xf), o.xf k = some x ∧ o.chain k = par :: rest ∧
+      objs[par]? = some op ∧ op.chain k = rest ∧ paths[par]? = some pp ∧ paths[i]? = some (x :: pp))
+
+def PathOK (objs : List Sk) (paths : Key → List (List Xf)) : Prop := ∀ k, PathOKk k objs (paths k)
+
+/-- every array in a memo table is read-only and reads what the value semantics computes for its object -/
+def CacheInv (cols : Nat) (src : Key → List Int) (st : St) (paths : Key → List (List Xf)) : Prop :=
+  ∀ i k a, (k, a) ∈ st.caches.getD i [] →
+    a.w = false ∧ a.buf < st.mem.length ∧ ∃ p, (paths k)[i]? = some p ∧ content st.mem a = valOf cols src p k
+
+/-- no writeable array that was handed out reads a buffer that an array in a memo table reads -/
+def OutInv (st : St) : Prop :=
+  ∀ h ∈ st.outs, h.w = true → h.buf < st.mem.length ∧ ∀ i k c, (k, c) ∈ st.caches.getD i [] → c.buf ≠ h.buf
+
+/-- post-condition of a memoised array method -/
+structure GetOK (cols : Nat) (src : Key → List Int) (paths : Key → List (List Xf)) (st : St) (p : List Xf) (k : Key)
+    (st' : St) (a : Arr) : Prop where
+  objs : st'.objs = st.objs
+  outs : st'.outs = st.outs
+  ext : ∃ e, st'.mem = st.mem ++ e
+  cache : CacheInv cols src st' paths
+  out : OutInv st'
+  ro : a.w = false
+  lt : a.buf < st'.mem.length
+  val : content st'.mem a = valOf cols src p k
+  prot : ∀ h ∈ st.outs, h.w = true → h.buf ≠ a.buf
+
+theorem fresh_ok (cols : Nat) (src : Key → List Int) (paths : Key → List (List Xf)) (st : St) (v : List Int) (i : Nat) (k : Key)
+    (p : List Xf) (hC : CacheInv cols src st paths) (hO : OutInv st) (hv : v = valOf cols src p k)
+    (hp : (paths k)[i]? = some p) :
+    GetOK cols src paths st p k (storeA { st with mem := st.mem ++ [v] } i k ⟨st.mem.length, List.range v.length, false⟩)
+      ⟨st.mem.length, List.range v.length, false⟩ := by
+  refine ⟨rfl, rfl, ⟨[v], rfl⟩, ?_, ?_, rfl, by simp [storeA], ?_, ?_⟩
+  · intro j k' c hc
+    rcases mem_storeA _ i k _ j k' c hc with ⟨rfl, rfl, rfl⟩ | hc
+    · exact ⟨rfl, by simp [storeA], p, hp, by simpa [storeA, hv] using content_fresh st.mem v false⟩
+    · obtain ⟨h1, h2, q, h3, h4⟩ := hC j k' c hc
+      exact ⟨h1, by simp [storeA]; omega, q, h3, by simpa [storeA, content_append _ _ c h2] using h4⟩
+  · intro h hh hw
+    obtain ⟨h1, h2⟩ := hO h hh hw
+    refine ⟨by simp [storeA]; omega, ?_⟩
+    intro j k' c hc
+    rcases mem_storeA _ i k _ j k' c hc with ⟨rfl, rfl, rfl⟩ | hc
+    · simp; omega
+    · exact h2 j k' c hc
+  · subst hv; simpa [storeA] using content_fresh st.mem _ false
+  · intro h hh hw
+    have := (hO h hh hw).1
+    simp; omega
+
+theorem view_ok (cols : Nat) (src : Key → List Int) (paths : Key → List (List Xf)) (st0 st : St) (i : Nat) (k : Key)
+    (p pp : List Xf) (a1 : Arr) (idx : List Nat) (g : GetOK cols src paths st0 pp k st a1)
+    (hv : content st.mem { a1 with idx := idx, w := false } = valOf cols src p k) (hp : (paths k)[i]? = some p) :
+    GetOK cols src paths st0 p k (storeA st i k { a1 with idx := idx, w := false }) { a1 with idx := idx, w := false } := by
+  refine ⟨by simpa [storeA] using g.objs, by simpa [storeA] using g.outs, by simpa [storeA] using g.ext, ?_, ?_, rfl,
+    by simpa [storeA] using g.lt, by simpa [storeA] using hv, g.prot⟩
+  · intro j k' c hc
+    rcases mem_storeA _ i k _ j k' c hc with ⟨rfl, rfl, rfl⟩ | hc
+    · exact ⟨rfl, by simpa [storeA] using g.lt, p, hp, by simpa [storeA] using hv⟩
+    · simpa [storeA] using g.cache j k' c hc
+  · intro h hh hw
+    have hh' : h ∈ st.outs := by simpa [storeA] using hh
+    obtain ⟨h1, h2⟩ := g.out h hh' hw
+    refine ⟨by simpa [storeA] using h1, ?_⟩
+    intro j k' c hc
+    rcases mem_storeA _ i k _ j k' c hc with ⟨rfl, rfl, rfl⟩ | hc
+    · have := g.prot h (g.outs ▸ hh') hw
+      exact fun e => this e.symm
+    · exact h2 j k' c hc
+
+theorem GetOK_refl (cols : Nat) (src : Key → List Int) (paths : Key → List (List Xf)) (st : St) (p : List Xf) (k : Key) (a : Arr)
+    (i : Nat) (hC : CacheInv cols src st paths) (hO : OutInv st) (hp : (paths k)[i]? = some p)
+    (ha : (k, a) ∈ st.caches.getD i []) : GetOK cols src paths st p k st a := by
+  obtain ⟨h1, h2, q, h3, h4⟩ := hC i k a ha
+  have : q = p := by rw [hp] at h3; exact (Option.some.inj h3).symm
+  subst this
+  exact ⟨rfl, rfl, ⟨[], by simp⟩, hC, hO, h1, h2, h4, fun h hh hw e => (hO h hh hw).2 i k a ha e.symm⟩
+
+theorem lookupA_mem (c : List (Key × Arr)) (k : Key) (a : Arr) (h : lookupA c k = some a) : (k, a) ∈ c := by
+  unfold lookupA at h
+  cases hf : c.find? (·.1 = k) with
+  | none => simp [hf] at h
+  | some e =>
+    rw [hf] at h
+    have h1 := List.mem_of_find?_eq_some hf
+    have h2 := List.find?_some hf
+    simp at h h2
+    obtain ⟨e1, e2⟩ := e
+    simp at h h2
+    subst h h2
+    exact h1
+
+theorem GetOK_trans (cols : Nat) (src : Key → List Int) (paths : Key → List (List Xf)) (st0 st1 st2 : St) (p q : List Xf)
+    (k k' : Key) (a b : Arr) (g1 : GetOK cols src paths st0 p k st1 a) (g2 : GetOK cols src paths st1 q k' st2 b) :
+    st2.objs = st0.objs ∧ st2.outs = st0.outs ∧ (∃ e, st2.mem = st0.mem ++ e) ∧
+      content st2.mem a = valOf cols src p k ∧ a.buf < st2.mem.length ∧ (∀ h ∈ st0.outs, h.w = true → h.buf ≠ b.buf) := by
+  obtain ⟨e1, he1⟩ := g1.ext
+  obtain ⟨e2, he2⟩ := g2.ext
+  refine ⟨g2.objs.trans g1.objs, g2.outs.trans g1.outs, ⟨e1 ++ e2, by rw [he2, he1, List.append_assoc]⟩, ?_, ?_, ?_⟩
+  · rw [he2, content_append _ _ a g1.lt]; exact g1.val
+  · rw [he2]; have := g1.lt; simp; omega
+  · intro h hh; exact g2.prot h (g1.outs ▸ hh)
+
+theorem valOf_cons (cols : Nat) (src : Key → List Int) (x : Xf) (pp : List Xf) (k : Key) :
+    valOf cols src (x :: pp) k = applyV cols k x (valOf cols src pp k) := rfl
+
+theorem getAt_ok (cols : Nat) (src : Key → List Int) (paths : Key → List (List Xf)) (up : St → St × Option Arr) (st : St)
+    (i : Nat) (k : Key) (o : Sk) (p : List Xf) (hC : CacheInv cols src st paths) (hO : OutInv st)
+    (ho : st.objs[i]? = some o) (hp : (paths k)[i]? = some p) (hroot : o.xf k = none → p = [])
+    (hup : ∀ x, o.xf k = some x → ∃ pp, p = x :: pp ∧ ∃ st1 a1, up st = (st1, some a1) ∧ GetOK cols src paths st pp k st1 a1) :
+    ∃ st' a, getAt cols src up st i k = (st', some a) ∧ GetOK cols src paths st p k st' a := by
+  unfold getAt
+  rw [ho]
+  simp only
+  cases hl : lookupA (st.caches.getD i []) k with
+  | some a => exact ⟨st, a, rfl, GetOK_refl cols src paths st p k a i hC hO hp (lookupA_mem _ _ _ hl)⟩
+  | none =>
+    simp only
+    cases hx : o.xf k with
+    | none =>
+      simp only
+      have := hroot hx
+      subst this
+      exact ⟨_, _, rfl, fresh_ok cols src paths st (src k) i k [] hC hO rfl hp⟩
+    | some x =>
+      simp only
+      obtain ⟨pp, rfl, st1, a1, hu, g⟩ := hup x hx
+      rw [hu]
+      simp only
+      cases x with
+      | crop lo hi =>
+        refine ⟨_, _, rfl, view_ok cols src paths st st1 i k _ pp a1 _ g ?_ hp⟩
+        rw [valOf_cons, ← g.val]
+        simp only [content, applyXf, applyV]
+        rw [cropL_map]
+      | flip =>
+        refine ⟨_, _, rfl, view_ok cols src paths st st1 i k _ pp a1 _ g ?_ hp⟩
+        rw [valOf_cons, ← g.val]
+        simp only [content, applyXf, applyV]
+        rw [flipL_map, List.length_map]
+      | down f =>
+        have hf := fresh_ok cols src paths st1 (downV cols f k (content st1.mem a1)) i k (.down f :: pp) g.cache g.out
+          (by rw [valOf_cons, ← g.val]; rfl) hp
+        obtain ⟨e1, he1⟩ := g.ext
+        obtain ⟨e2, he2⟩ := hf.ext
+        refine ⟨_, _, rfl, (?_ : GetOK cols src paths st (.down f :: pp) k
+          (storeA { st1 with mem := st1.mem ++ [downV cols f k (content st1.mem a1)] } i k
+            ⟨st1.mem.length, List.range (downV cols f k (content st1.mem a1)).length, false⟩)
+          ⟨st1.mem.length, List.range (downV cols f k (content st1.mem a1)).length, false⟩)⟩
+        exact ⟨hf.objs.trans g.objs, hf.outs.trans g.outs, ⟨e1 ++ e2, by rw [he2, he1, List.append_assoc]⟩, hf.cache, hf.out,
+          hf.ro, hf.lt, hf.val, fun h hh => hf.prot h (g.outs ▸ hh)⟩
+
+theorem getArr_ok (cols : Nat) (src : Key → List Int) (paths : Key → List (List Xf)) :
+    ∀ (chain : List Nat) (st : St) (i : Nat) (k : Key) (o : Sk) (p : List Xf), PathOK st.objs paths →
+      CacheInv cols src st paths → OutInv st → st.objs[i]? = some o → o.chain k = chain → (paths k)[i]? = some p →
+      ∃ st' a, getArr cols src chain st i k = (st', some a) ∧ GetOK cols src paths st p k st' a := by
+  intro chain
+  induction chain with
+  | nil =>
+    intro st i k o p hP hC hO ho hc hp
+    unfold getArr
+    apply getAt_ok cols src paths _ st i k o p hC hO ho hp
+    · intro hx
+      rcases (hP k).2 i o ho with ⟨_, h⟩ | ⟨x, par, rest, op, pp, h1, _⟩
+      · rw [hp] at h; exact Option.some.inj h
+      · rw [hx] at h1; cases h1
+    · intro x hx
+      rcases (hP k).2 i o ho with ⟨h, _⟩ | ⟨x, par, rest, op, pp, _, h2, _⟩
+      · rw [hx] at h; cases h
+      · rw [hc] at h2; cases h2
+  | cons par rest ih =>
+    intro st i k o p hP hC hO ho hc hp
+    unfold getArr
+    apply getAt_ok cols src paths _ st i k o p hC hO ho hp
+    · intro hx
+      rcases (hP k).2 i o ho with ⟨_, h⟩ | ⟨x, par, rest, op, pp, h1, _⟩
+      · rw [hp] at h; exact Option.some.inj h
+      · rw [hx] at h1; cases h1
+    · intro x hx
+      rcases (hP k).2 i o ho with ⟨h, _⟩ | ⟨x', par', rest', op, pp, h1, h2, h3, h4, h5, h6⟩
+      · rw [hx] at h; cases h
+      · rw [hc] at h2
+        cases h2
+        rw [hx] at h1
+        cases h1
+        rw [hp] at h6
+        cases h6
+        exact ⟨pp, rfl, ih st par k op pp hP hC hO h3 h4 h5⟩
+
+theorem getTop_ok (cols : Nat) (src : Key → List Int) (paths : Key → List (List Xf)) (st : St) (i : Nat) (k : Key) (p : List Xf)
+    (hP : PathOK st.objs paths) (hC : CacheInv cols src st paths) (hO : OutInv st) (hp : (paths k)[i]? = some p) :
+    ∃ st' a, getTop cols src st i k = (st', some a) ∧ GetOK cols src paths st p k st' a := by
+  have hi : i < st.objs.length := by
+    rw [(hP k).1]
+    exact (List.getElem?_eq_some_iff.mp hp).1
+  unfold getTop
+  rw [List.getElem?_eq_getElem hi]
+  exact getArr_ok cols src paths _ st i k _ p hP hC hO (List.getElem?_eq_getElem hi) rfl hp
+
+theorem getTop_none (cols : Nat) (src : Key → List Int) (st : St) (i : Nat) (k : Key) (h : st.objs[i]? = none) :
+    getTop cols src st i k = (st, none) := by
+  unfold getTop
+  rw [h]
+
+/-! ### the refinement -/
+
+structure Inv (cols : Nat) (src : Key → List Int) (st : St) (sp : Sp) : Prop where
+  path : PathOK st.objs sp.paths
+  cache : CacheInv cols src st sp.paths
+  out : OutInv st
+  flags : st.outs.map (·.w) = sp.flags
+
+theorem Inv_init (cols : Nat) (src : Key → List Int) : Inv cols src initSt initSp := by
+  refine ⟨?_, ?_, ?_, rfl⟩
+  · intro k
+    refine ⟨by cases k <;> rfl, ?_⟩
+    intro i o ho
+    cases i with
+    | zero => simp [initSt] at ho; subst ho; exact Or.inl ⟨by cases k <;> rfl, by cases k <;> rfl⟩
+    | succ n => simp [initSt] at ho
+  · intro i k a h
+    cases i with
+    | zero => simp [initSt] at h
+    | succ n => simp [initSt] at h
+  · intro h hh
+    simp [initSt] at hh
+
+theorem objs_none_iff {k : Key} {objs : List Sk} {paths : List (List Xf)} (hP : PathOKk k objs paths) (i : Nat) :
+    objs[i]? = none ↔ paths[i]? = none := by
+  simp [hP.1]
+
+/-- handing out a read-only array, or a writeable one on a brand-new buffer -/
+theorem hand_ok (cols : Nat) (src : Key → List Int) (st : St) (sp : Sp) (a : Arr) (hP : PathOK st.objs sp.paths)
+    (hC : CacheInv cols src st sp.paths) (hO : OutInv st) (hF : st.outs.map (·.w) = sp.flags)
+    (ha : a.w = true → a.buf < st.mem.length ∧ ∀ i k c, (k, c) ∈ st.caches.getD i [] → c.buf ≠ a.buf) :
+    Inv cols src (hand st a).1 { sp with flags := sp.flags ++ [a.w] } := by
+  refine ⟨hP, hC, ?_, by simp [hand, hF]⟩
+  intro h hh hw
+  simp only [hand, List.mem_append, List.mem_singleton] at hh
+  rcases hh with hh | rfl
+  · exact hO h hh hw
+  · exact ha hw
+
+theorem CacheInv_push (cols : Nat) (src : Key → List Int) (st : St) (paths : Key → List (List Xf)) (v : List Int)
+    (hC : CacheInv cols src st paths) : CacheInv cols src { st with mem := st.mem ++ [v] } paths := by
+  intro i k a h
+  obtain ⟨h1, h2, q, h3, h4⟩ := hC i k a h
+  exact ⟨h1, by simp; omega, q, h3, by simpa [content_append _ _ a h2] using h4⟩
+
+theorem OutInv_push (st : St) (v : List Int) (hO : OutInv st) : OutInv { st with mem := st.mem ++ [v] } := by
+  intro h hh hw
+  obtain ⟨h1, h2⟩ := hO h hh hw
+  exact ⟨by simp; omega, h2⟩
+
+theorem PathOK_push (k : Key) (objs : List Sk) (paths : List (List Xf)) (o : Sk) (p : List Xf) (hP : PathOKk k objs paths)
+    (hn : (o.xf k = none ∧ p = []) ∨
+      (∃ (x : Xf) (par : Nat) (rest : List Nat) (op : Sk) (pp : List Xf), o.xf k = some x ∧ o.chain k = par :: rest ∧
+        objs[par]? = some op ∧ op.chain k = rest ∧ paths[par]? = some pp ∧ p = x :: pp)) :
+    PathOKk k (objs ++ [o]) (paths ++ [p]) := by
+  refine ⟨by simp [hP.1], ?_⟩
+  have lift : ∀ {α : Type} (l : List α) (e : α) (j : Nat) (y : α), l[j]? = some y → (l ++ [e])[j]? = some y := by
+    intro α l e j y h
+    rw [List.getElem?_append_left (List.getElem?_eq_some_iff.mp h).1]; exact h
+  intro i o' ho'
+  by_cases hi : i < objs.length
+  · rw [List.getElem?_append_left hi] at ho'
+    rcases hP.2 i o' ho' with ⟨h1, h2⟩ | ⟨x, par, rest, op, pp, h1, h2, h3, h4, h5, h6⟩
+    · exact Or.inl ⟨h1, lift _ _ _ _ h2⟩
+    · exact Or.inr ⟨x, par, rest, op, pp, h1, h2, lift _ _ _ _ h3, h4, lift _ _ _ _ h5, lift _ _ _ _ h6⟩
+  · have hi' : i = objs.length := by
+      have := (List.getElem?_eq_some_iff.mp ho').1
+      simp at this; omega
+    subst hi'
+    simp at ho'
+    subst ho'
+    have hpi : (paths ++ [p])[objs.length]? = some p := by rw [hP.1]; simp
+    rcases hn with ⟨h1, h2⟩ | ⟨x, par, rest, op, pp, h1, h2, h3, h4, h5, h6⟩
+    · exact Or.inl ⟨h1, by rw [hpi, h2]⟩
+    · exact Or.inr ⟨x, par, rest, op, pp, h1, h2, lift _ _ _ _ h3, h4, lift _ _ _ _ h5, by rw [hpi, h6]⟩
+
+theorem derive_ok (cols : Nat) (src : Key → List Int) (st : St) (sp : Sp) (o : Sk) (p q : List Xf)
+    (hI : Inv cols src st sp)
+    (hP : PathOK (st.objs ++ [o]) ({ sp with ip := sp.ip ++ [p], tp := sp.tp ++ [q] } : Sp).paths) :
+    Inv cols src { st with objs := st.objs ++ [o], caches := st.caches ++ [[]] }
+      { sp with ip := sp.ip ++ [p], tp := sp.tp ++ [q] } := by
+  refine ⟨hP, ?_, ?_, hI.flags⟩
+  · intro i k a h
+    obtain ⟨h1, h2, r, h3, h4⟩ := hI.cache i k a (mem_caches_append _ _ _ h)
+    refine ⟨h1, h2, r, ?_, h4⟩
+    cases k with
+    | ts =>
+      show (sp.tp ++ [q])[i]? = some r
+      have h3' : sp.tp[i]? = some r := h3
+      rw [List.getElem?_append_left (List.getElem?_eq_some_iff.mp h3').1]; exact h3'
+    | img c =>
+      show (sp.ip ++ [p])[i]? = some r
+      have h3' : sp.ip[i]? = some r := h3
+      rw [List.getElem?_append_left (List.getElem?_eq_some_iff.mp h3').1]; exact h3'
+  · intro h hh hw
+    obtain ⟨h1, h2⟩ := hI.out h hh hw
+    exact ⟨h1, fun i k c hc => h2 i k c (mem_caches_append _ _ _ hc)⟩
+
+theorem stepA_sim (cols : Nat) (src : Key → List Int) (st : St) (sp : Sp) (op : AOp) (hI : Inv cols src st sp) :
+    Inv cols src (stepA cols src st op).1 (stepS cols src sp op).1 ∧ (stepA cols src st op).2 = (stepS cols src sp op).2 := by
+  cases op with
+  | get i k =>
+    simp only [stepA, stepS]
+    cases hp : (sp.paths k)[i]? with
+    | none =>
+      rw [getTop_none cols src st i k ((objs_none_iff (hI.path k) i).mpr hp)]
+      exact ⟨hI, rfl⟩
+    | some p =>
+      obtain ⟨st1, a, hg, g⟩ := getTop_ok cols src sp.paths st i k p hI.path hI.cache hI.out hp
+      rw [hg]
+      simp only
+      have := hand_ok cols src st1 sp a (g.objs ▸ hI.path) g.cache g.out (by rw [g.outs]; exact hI.flags)
+        (by intro hw; rw [g.ro] at hw; cases hw)
+      rw [g.ro] at this
+      exact ⟨this, by simp [hand, g.val, g.ro]⟩
+  | rgb i =>
+    simp only [stepA, stepS]
+    cases hp : sp.ip[i]? with
+    | none =>
+      rw [getTop_none cols src st i _ ((objs_none_iff (hI.path (.img .red)) i).mpr hp)]
+      exact ⟨hI, rfl⟩
+    | some p =>
+      obtain ⟨st1, r, hg1, g1⟩ := getTop_ok cols src sp.paths st i (.img .red) p hI.path hI.cache hI.out hp
+      obtain ⟨st2, g, hg2, g2⟩ := getTop_ok cols src sp.paths st1 i (.img .green) p (g1.objs ▸ hI.path) g1.cache g1.out hp
+      obtain ⟨st3, b, hg3, g3⟩ := getTop_ok cols src sp.paths st2 i (.img .blue) p (g2.objs ▸ g1.objs ▸ hI.path) g2.cache
+        g2.out hp
+      rw [hg1]; simp only
+      rw [hg2]; simp only
+      rw [hg3]; simp only
+      have t12 := GetOK_trans cols src sp.paths st st1 st2 p p _ _ r g g1 g2
+      have t23 := GetOK_trans cols src sp.paths st1 st2 st3 p p _ _ g b g2 g3
+      have hr : content st3.mem r = valOf cols src p (.img .red) := by
+        obtain ⟨e3, he3⟩ := g3.ext
+        rw [he3, content_append _ _ r t12.2.2.2.2.1]; exact t12.2.2.2.1
+      have hgv : content st3.mem g = valOf cols src p (.img .green) := t23.2.2.2.1
+      have hb := g3.val
+      have lr := content_length st3.mem r
+      have lg := content_length st3.mem g
+      have lb := content_length st3.mem b
+      rw [hr] at lr; rw [hgv] at lg; rw [hb] at lb
+      rw [hr, hgv, hb, ← lr, ← lg, ← lb]
+      split
+      · have hP3 : PathOK st3.objs sp.paths := by rw [g3.objs, g2.objs, g1.objs]; exact hI.path
+        have hF3 : st3.outs.map (·.w) = sp.flags := by rw [g3.outs, g2.outs, g1.outs]; exact hI.flags
+        have := hand_ok cols src { st3 with mem := st3.mem ++ [stack3 (valOf cols src p (.img .red))
+            (valOf cols src p (.img .green)) (valOf cols src p (.img .blue))] } sp
+          ⟨st3.mem.length, List.range (stack3 (valOf cols src p (.img .red)) (valOf cols src p (.img .green))
+            (valOf cols src p (.img .blue))).length, true⟩ hP3 (CacheInv_push cols src st3 sp.paths _ g3.cache)
+          (OutInv_push st3 _ g3.out) hF3
+          (by
+            intro _
+            refine ⟨by simp, ?_⟩
+            intro j k c hc
+            have := (g3.cache j k c hc).2.1
+            simp; omega)
+        exact ⟨this, by simp only [hand]; rw [content_fresh]⟩
+      · exact ⟨⟨by rw [g3.objs, g2.objs, g1.objs]; exact hI.path, g3.cache, g3.out,
+          by rw [g3.outs, g2.outs, g1.outs]; exact hI.flags⟩, rfl⟩
+  | write h j v =>
+    simp only [stepA, stepS]
+    have hf : sp.flags[h]? = (st.outs[h]?).map (·.w) := by rw [← hI.flags, List.getElem?_map]
+    rw [hf]
+    cases ha : st.outs[h]? with
+    | none => exact ⟨hI, rfl⟩
+    | some a =>
+      simp only [Option.map_some]
+      cases hw : a.w with
+      | false => simp only [Bool.false_eq_true, if_false]; exact ⟨hI, by first | rfl | trivial⟩
+      | true =>
+        simp only [if_true]
+        cases hj : a.idx[j]? with
+        | none => exact ⟨hI, rfl⟩
+        | some q =>
+          refine ⟨⟨hI.path, ?_, ?_, hI.flags⟩, rfl⟩
+          · intro i k c hc
+            obtain ⟨h1, h2, p, h3, h4⟩ := hI.cache i k c hc
+            have hne := (hI.out a (List.mem_of_getElem? ha) hw).2 i k c hc
+            exact ⟨h1, by simpa using h2, p, h3, by simpa [content_set_ne _ _ _ c hne] using h4⟩
+          · intro h' hh hw'
+            obtain ⟨h1, h2⟩ := hI.out h' hh hw'
+            exact ⟨by simpa using h1, h2⟩
+  | view i x =>
+    simp only [stepA, stepS]
+    cases hp : sp.ip[i]? with
+    | none => rw [(objs_none_iff (hI.path (.img .red)) i).mpr hp]; exact ⟨hI, rfl⟩
+    | some p =>
+      have hi : i < st.objs.length := by
+        have := (hI.path (.img .red)).1; rw [show (sp.paths (.img .red)) = sp.ip from rfl] at this
+        have := (List.getElem?_eq_some_iff.mp hp).1; omega
+      have hi' : i < sp.tp.length := by have := (hI.path .ts).1; rw [show (sp.paths .ts) = sp.tp from rfl] at this; omega
+      rw [List.getElem?_eq_getElem hi, List.getElem?_eq_getElem hi']
+      refine ⟨derive_ok cols src st sp _ _ _ hI ?_, rfl⟩
+      intro k
+      cases k with
+      | ts =>
+        refine PathOK_push .ts _ _ _ _ (hI.path .ts) ?_
+        cases x with
+        | flip =>
+          rcases (hI.path .ts).2 i _ (List.getElem?_eq_getElem hi) with ⟨h1, h2⟩ | ⟨x, par, rest, op, pp, h1, h2, h3, h4, h5, h6⟩
+          · exact Or.inl ⟨h1, by
+              have := List.getElem?_eq_getElem hi'
+              rw [show (sp.paths .ts) = sp.tp from rfl] at h2
+              rw [h2] at this; exact (Option.some.inj this).symm⟩
+          · exact Or.inr ⟨x, par, rest, op, pp, h1, h2, h3, h4, h5, by
+              have := List.getElem?_eq_getElem hi'
+              rw [show (sp.paths .ts) = sp.tp from rfl] at h6
+              rw [h6] at this; exact (Option.some.inj this).symm⟩
+        | crop lo hi2 =>
+          exact Or.inr ⟨_, i, _, st.objs[i], sp.tp[i], rfl, rfl, List.getElem?_eq_getElem hi, rfl,
+            List.getElem?_eq_getElem hi', rfl⟩
+        | down f =>
+          exact Or.inr ⟨_, i, _, st.objs[i], sp.tp[i], rfl, rfl, List.getElem?_eq_getElem hi, rfl,
+            List.getElem?_eq_getElem hi', rfl⟩
+      | img c =>
+        refine PathOK_push (.img c) _ _ _ _ (hI.path (.img c)) ?_
+        cases x with
+        | flip => exact Or.inr ⟨_, i, _, st.objs[i], p, rfl, rfl, List.getElem?_eq_getElem hi, rfl, hp, rfl⟩
+        | crop lo hi2 => exact Or.inr ⟨_, i, _, st.objs[i], p, rfl, rfl, List.getElem?_eq_getElem hi, rfl, hp, rfl⟩
+        | down f => exact Or.inr ⟨_, i, _, st.objs[i], p, rfl, rfl, List.getElem?_eq_getElem hi, rfl, hp, rfl⟩
+  | copy i =>
+    simp only [stepA, stepS]
+    cases hp : sp.ip[i]? with
+    | none => rw [(objs_none_iff (hI.path (.img .red)) i).mpr hp]; exact ⟨hI, rfl⟩
+    | some p =>
+      have hi : i < st.objs.length := by
+        have := (hI.path (.img .red)).1; rw [show (sp.paths (.img .red)) = sp.ip from rfl] at this
+        have := (List.getElem?_eq_some_iff.mp hp).1; omega
+      have hi' : i < sp.tp.length := by have := (hI.path .ts).1; rw [show (sp.paths .ts) = sp.tp from rfl] at this; omega
+      rw [List.getElem?_eq_getElem hi, List.getElem?_eq_getElem hi']
+      refine ⟨derive_ok cols src st sp _ _ _ hI ?_, rfl⟩
+      intro k
+      cases k with
+      | ts =>
+        refine PathOK_push .ts _ _ _ _ (hI.path .ts) ?_
+        rcases (hI.path .ts).2 i _ (List.getElem?_eq_getElem hi) with ⟨h1, h2⟩ | ⟨x, par, rest, op, pp, h1, h2, h3, h4, h5, h6⟩
+        · exact Or.inl ⟨h1, by
+            have := List.getElem?_eq_getElem hi'
+            rw [show (sp.paths .ts) = sp.tp from rfl] at h2
+            rw [h2] at this; exact (Option.some.inj this).symm⟩
+        · exact Or.inr ⟨x, par, rest, op, pp, h1, h2, h3, h4, h5, by
+            have := List.getElem?_eq_getElem hi'
+            rw [show (sp.paths .ts) = sp.tp from rfl] at h6
+            rw [h6] at this; exact (Option.some.inj this).symm⟩
+      | img c =>
+        refine PathOK_push (.img c) _ _ _ _ (hI.path (.img c)) ?_
+        rcases (hI.path (.img c)).2 i _ (List.getElem?_eq_getElem hi) with ⟨h1, h2⟩ | ⟨x, par, rest, op, pp, h1, h2, h3, h4, h5, h6⟩
+        · exact Or.inl ⟨h1, by
+            rw [show (sp.paths (.img c)) = sp.ip from rfl] at h2
+            rw [hp] at h2; exact Option.some.inj h2⟩
+        · exact Or.inr ⟨x, par, rest, op, pp, h1, h2, h3, h4, h5, by
+            rw [show (sp.paths (.img c)) = sp.ip from rfl] at h6
+            rw [hp] at h6; exact Option.some.inj h6⟩
+
+theorem runA_sim (cols : Nat) (src : Key → List Int) : ∀ (ops : List AOp) (st : St) (sp : Sp), Inv cols src st sp →
+    Inv cols src (runA cols src st ops).1 (runS cols src sp ops).1 ∧ (runA cols src st ops).2 = (runS cols src sp ops).2
+  | [], st, sp, hI => ⟨hI, rfl⟩
+  | op :: rest, st, sp, hI => by
+    obtain ⟨h1, h2⟩ := stepA_sim cols src st sp op hI
+    obtain ⟨h3, h4⟩ := runA_sim cols src rest _ _ h1
+    simp only [runA, runS]
+    exact ⟨h3, by rw [h2, h4]⟩
+
+/-! ### write attacks are invisible (value semantics) -/
+
+def AOp.isWrite : AOp → Bool
+  | .write _ _ _ => true
+  | _ => false
+
+/-- the answers of the steps that are not write attempts -/
+def dropWrites : List AOp → List AAns → List AAns
+  | op :: ops, a :: as => if op.isWrite then dropWrites ops as else a :: dropWrites ops as
+  | _, _ => []
+
+theorem stepS_write (cols : Nat) (src : Key → List Int) (sp : Sp) (op : AOp) (hw : op.isWrite = true) :
+    (stepS cols src sp op).1 = sp := by
+  cases op with
+  | write h j v =>
+    simp only [stepS]
+    cases sp.flags[h]? with
+    | none => rfl
+    | some b => cases b <;> rfl
+  | _ => simp [AOp.isWrite] at hw
+
+theorem runS_dropWrites (cols : Nat) (src : Key → List Int) : ∀ (ops : List AOp) (sp : Sp),
+    dropWrites ops (runS cols src sp ops).2 = (runS cols src sp (ops.filter fun o => !o.isWrite)).2
+  | [], _ => rfl
+  | op :: rest, sp => by
+    simp only [runS, dropWrites, List.filter_cons]
+    cases hw : op.isWrite with
+    | true =>
+      simp only [Bool.not_true, if_true, Bool.false_eq_true, if_false]
+      rw [stepS_write cols src sp op hw]
+      exact runS_dropWrites cols src rest sp
+    | false =>
+      simp only [Bool.not_false, if_true, Bool.false_eq_true, if_false, runS]
+      rw [runS_dropWrites cols src rest]
+
+end Alias
+
 end Verif.C19
